@@ -285,13 +285,52 @@ Fixpoint blank_with (k : kind) (kvs : list (string * option fval)) (a : attrs) :
       end
   end.
 
+(* Node._complete_image_pair (proposed fix C02-4; present when the regenerated flag
+   node_completes_image_pair says so): image_ref and image_type are stored as one graph property, so a
+   lone half is completed with the other half read from the graph, and refused when there is none *)
+Definition image_pairs : list (string * string) :=
+  [("image_ref", "image_type"); ("image_type", "image_ref")]%string.
+
+(* props.get(p): None for a missing keyword and for an explicit None *)
+Definition kv_get (p : string) (kvs : list (string * option fval)) : option fval :=
+  match alookup p kvs with Some (Some v) => Some v | _ => None end.
+
+Fixpoint complete_pairs (k : kind) (d : props) (pairs : list (string * string))
+         (kvs : list (string * option fval)) : res (list (string * option fval)) :=
+  match pairs with
+  | [] => Ok kvs
+  | (one, other) :: r =>
+      match kv_get one kvs, kv_get other kvs with
+      | Some _, None =>
+          bind (get_property k other d) (fun ov =>
+            match ov with
+            | None => Err ExOther                        (* TopologyException *)
+            | Some w => complete_pairs k d r (aset other (Some w) kvs)   (* dict(props, other=oval) *)
+            end)
+      | _, _ => complete_pairs k d r kvs
+      end
+  end.
+
+(* the keyword list the blank sliver is built from *)
+Definition completed_kvs (complete : bool) (k : kind) (kvs : list (string * option fval)) (d : props)
+  : res (list (string * option fval)) :=
+  if complete && kind_eqb k KNode then complete_pairs k d image_pairs kvs else Ok kvs.
+
+Definition set_properties_with (complete : bool) (k : kind) (kvs : list (string * option fval)) (d : props)
+  : res props :=
+  bind (completed_kvs complete k kvs d) (fun kvs' =>
+  bind (blank_with k kvs' (blank k)) (fun a =>
+    bind (to_props k a) (fun pd => Ok (aupdate d pd)))).
+
 Definition set_properties (k : kind) (kvs : list (string * option fval)) (d : props) : res props :=
-  bind (blank_with k kvs (blank k)) (fun a =>
-    bind (to_props k a) (fun pd => Ok (aupdate d pd))).
+  set_properties_with node_completes_image_pair k kvs d.
 
 (* <Element>.set_property(p, v): v = None means unset *)
-Definition set_property (k : kind) (p : string) (v : option fval) (d : props) : res props :=
+Definition set_property_with (complete : bool) (k : kind) (p : string) (v : option fval) (d : props) : res props :=
   match v with
   | None => unset_property p d
-  | Some w => set_properties k [(p, Some w)] d
+  | Some w => set_properties_with complete k [(p, Some w)] d
   end.
+
+Definition set_property (k : kind) (p : string) (v : option fval) (d : props) : res props :=
+  set_property_with node_completes_image_pair k p v d.
